@@ -277,9 +277,66 @@ fn probe_many_hunks(cx: &mut Cx) -> CaseResult {
     Ok(())
 }
 
+/// Scale probe: a complete band of 1400 hunks of three entries (and one of 2500 hunks of
+/// two) below an interrupted band that stops at a path inside one of those hunks — at its
+/// first, its middle and its last entry, early, in the middle and late in the index.
+fn probe_long_multi_entry_index(cx: &mut Cx) -> CaseResult {
+    for (per_hunk, n_hunks) in [(3usize, 1400usize), (2, 2500)] {
+        let n = per_hunk * n_hunks;
+        let paths: Vec<String> = (0..n).map(|i| format!("/f{i:05}")).collect();
+        for stop_hunk in [7usize, n_hunks / 2, n_hunks - 3] {
+            for within in 0..per_hunk {
+                crate::engine::heartbeat();
+                let root = cx.dir("long-multi");
+                crate::engine::force_remove(&root);
+                format::write_archive_header(&root);
+                format::write_band_head(&root, 0);
+                for h in 0..n_hunks {
+                    let es: Vec<serde_json::Value> =
+                        (h * per_hunk..(h + 1) * per_hunk).map(|i| format::entry_json(&paths[i], "Dir", i as i64, &[], None)).collect();
+                    format::write_hunk(&root, 0, h as u32, &es);
+                }
+                format::write_band_tail(&root, 0, n_hunks as u64);
+                // the interrupted band: everything up to and including its last path, in hunks
+                // of seven entries (other boundaries than the older band's)
+                let last = stop_hunk * per_hunk + within;
+                format::write_band_head(&root, 1);
+                for (hn, chunk) in (0..=last).collect::<Vec<_>>().chunks(7).enumerate() {
+                    let es: Vec<serde_json::Value> = chunk.iter().map(|i| format::entry_json(&paths[*i], "Dir", 1_000_000 + *i as i64, &[], None)).collect();
+                    format::write_hunk(&root, 1, hn as u32, &es);
+                }
+                let ra = format::scan(&root);
+                let reference = format::ref_listing(&ra, 1);
+                ensure!(reference.len() == n, "C08/harness/probe", "reference has {} entries", reference.len());
+                let l = ops::list_entries(&root, &None, &Sel::Band(1), "/", &[], 2 * n);
+                ensure!(l.clean(), "C08/probe-long-multi-entry-index/listing-reported-errors", "{}", l.describe());
+                let gp: Vec<(String, i64)> = l.result.unwrap().iter().map(|e| (e.apath.to_string(), e.mtime)).collect();
+                let wp: Vec<(String, i64)> = reference.iter().map(|(e, _)| (e.apath.clone(), e.mtime)).collect();
+                if gp != wp {
+                    let i = gp.iter().zip(wp.iter()).position(|(a, b)| a != b).unwrap_or(gp.len().min(wp.len()));
+                    fail!(
+                        "C08/listing-differs-from-stitching-rule/probe-long-multi-entry-index",
+                        "older band of {n_hunks} hunks of {per_hunk}, interrupted band ending at {}: listing has {} entries, the rule gives {}; first difference at position {i}: got {:?}, want {:?}",
+                        paths[last],
+                        gp.len(),
+                        wp.len(),
+                        gp.get(i),
+                        wp.get(i)
+                    );
+                }
+                crate::engine::force_remove(&root);
+                cx.add_evals(1);
+                cx.inner_nontrivial += 1;
+            }
+        }
+    }
+    Ok(())
+}
+
 fn enumerate(tier: Tier, idx: u32, of: u32, cx: &mut Cx) -> CaseResult {
     if crate::probes::mine(idx, of) {
         probe_many_hunks(cx)?;
+        probe_long_multi_entry_index(cx)?;
     }
     // universe in reference order; chosen to straddle the '/'-ordering subtleties
     let universe: Vec<String> = match tier {
